@@ -63,8 +63,9 @@ func genBigProgram(t *rapid.T, total int) Program {
 	}
 	p.DeclareCL = rapid.IntRange(0, 2).Draw(t, "declarecl") == 2
 	parts := partition(t, total, 4, "resp")
+	vias := genVias(t, len(parts))
 	for i, n := range parts {
-		p.Ops = append(p.Ops, Op{Op: "write", N: n})
+		p.Ops = append(p.Ops, Op{Op: "write", N: n, Via: vias[i]})
 		if i < len(parts)-1 && rapid.IntRange(0, 5).Draw(t, "flush-between") == 5 {
 			p.Ops = append(p.Ops, Op{Op: "flush"})
 		}
